@@ -21,7 +21,7 @@ RULE = ('random histories (<= 60 operations, few names in mixed case, empty stri
         'operation, for every name that ever occurred (several casings): by_class / by_target / search() are compared '
         'with a scan of vmf.entities (+ worldspawn for by_class). Empty sets left in the mappings are ignored; '
         'worldspawn membership in by_target is not constrained (the statement names it only for the class index). '
-        'Non-trivial = history with >= 1 rename / re-class / remove after an add; distinct = distinct history.')
+        'Non-trivial = history with >= 1 rename / re-class / remove after an add; distinct = distinct history. Additional engine: the repository\'s own tests run as a workload with the same invariants attached as runtime contracts (rv/contracts.py).')
 ASSUMPTIONS = ['index keys are the casefolded classname ("" when missing) and the casefolded targetname (None when missing/empty), '
                'as VMF.add_ent establishes them',
                'worldspawn is required under by_class["worldspawn"]; its presence in by_target is not checked']
@@ -341,6 +341,10 @@ def main(run, shard=(0, 1)) -> None:
             run_history(run, run.seed, i)
     probe.report(run)
     probe.check_reached(run)
+    if shard[0] == 0:
+        # the repository's own tests as an additional workload, with runtime contracts attached (rv/contracts.py)
+        from rv.repo_tests_engine import run_repo_tests_with_contracts
+        run_repo_tests_with_contracts(run, 'C07', ['test_vmf.py', 'test_instancing.py', 'test_bsp_entities.py', 'test_packlist.py'] if run.tier == 'thorough' else ['test_vmf.py', 'test_instancing.py'])
     run.require('invariant_evaluations', 'history_steps')
 
 
